@@ -8,6 +8,14 @@
   it back in pass 2 (`memory_read(address)`) to decide between encodings — the
   idiom of asm/msp430.cpp, 6502.cpp, mips.cpp ….  Data directives also write their
   bytes in pass 1, so they can clobber such a flag.
+
+  Names are bound by `name:` (AsmContext::assemble, TOKEN_LABEL) and by `.func name`
+  (core/directives.cpp); both call Symbols::append, which carries the pass-2 check.  The scope a
+  `.func` opens is not modelled (flat table; scoping is C11).
+
+  A back end may write alignment bytes in front of an instruction (`pad`): asm/msp430.cpp writes a
+  zero byte when the location counter is odd, asm/avr8.cpp skips one — in parse_instruction, i.e.
+  AFTER assemble() bound the name in front of the instruction, and identically in both passes.
 -/
 namespace NakenVerif.TwoPass
 
@@ -31,9 +39,13 @@ def Mem.writeBytes (m : Mem) : Nat → List Nat → Mem
 structure Backend (ι : Type) where
   size1 : ι → (known : String → Option Nat) → (addr : Nat) → Nat × Option Nat
   size2 : ι → (final : String → Option Nat) → (addr : Nat) → (flag : Nat) → Nat
+  /-- bytes the back end writes/skips in front of an instruction that would start at `addr`
+      (the same in both passes); `addr` in `size1`/`size2` is the address behind the pad -/
+  pad : (addr : Nat) → Nat := fun _ => 0
 
 inductive Stmt (ι : Type) where
   | label (name : String)
+  | func (name : String)
   | emit (i : ι)
   | data (bytes : List Nat)
   | org (addr : Nat)
@@ -43,43 +55,87 @@ structure St1 where
   syms : Syms
   mem : Mem
 
-/-- pass 1; `none` = error (duplicate label) -/
+/-- pass 1; `none` = error (duplicate name) -/
 def pass1 {ι} (b : Backend ι) : List (Stmt ι) → St1 → Option St1
   | [], s => some s
   | .label n :: r, s =>
       if (lookup s.syms n).isSome then none
       else pass1 b r { s with syms := s.syms ++ [(n, s.addr)] }
+  | .func n :: r, s =>
+      if (lookup s.syms n).isSome then none
+      else pass1 b r { s with syms := s.syms ++ [(n, s.addr)] }
   | .emit i :: r, s =>
-      let (sz, fl) := b.size1 i (lookup s.syms) s.addr
-      pass1 b r { s with addr := s.addr + sz,
-                         mem := match fl with | some f => s.mem.write s.addr f | none => s.mem }
+      let a := s.addr + b.pad s.addr
+      let (sz, fl) := b.size1 i (lookup s.syms) a
+      pass1 b r { s with addr := a + sz,
+                         mem := match fl with | some f => s.mem.write a f | none => s.mem }
   | .data bs :: r, s => pass1 b r { s with addr := s.addr + bs.length, mem := s.mem.writeBytes s.addr bs }
   | .org a :: r, s => pass1 b r { s with addr := a }
 
-/-- pass 2 with the table and memory pass 1 left.  The table is locked: Symbols::append enters
-    nothing, but (since dd028e1) compares the location counter with the recorded address and makes
-    a moved label an error (`none`).  Result: the list of (label, address at which the bytes
-    following the label are placed). -/
+/-- Symbols::append on the locked table (pass 2): nothing is entered; the location counter is compared
+    with the recorded address and a moved name is an error (`false`) — since dd028e1 -/
+def appendLocked (t : Syms) (n : String) (a : Nat) : Bool :=
+  match lookup t n with
+  | some a1 => a1 == a
+  | none => true
+
+/-- pass 2 with the table and memory pass 1 left.  `name:` and `.func name` both go through
+    `appendLocked`.  Result: `none` = "Label moved between passes", else the list of (name, location
+    counter at which pass 2 met the name). -/
 def pass2 {ι} (b : Backend ι) (t : Syms) (m : Mem) : List (Stmt ι) → Nat → Option (List (String × Nat))
   | [], _ => some []
   | .label n :: r, a =>
-      match lookup t n with
-      | some a1 =>
-          if a1 != a then none            -- "Label moved between passes"
-          else (pass2 b t m r a).map ((n, a) :: ·)
-      | none => (pass2 b t m r a).map ((n, a) :: ·)
-  | .emit i :: r, a => pass2 b t m r (a + b.size2 i (lookup t) a (m a))
+      if appendLocked t n a then (pass2 b t m r a).map ((n, a) :: ·) else none
+  | .func n :: r, a =>
+      if appendLocked t n a then (pass2 b t m r a).map ((n, a) :: ·) else none
+  | .emit i :: r, a =>
+      let a' := a + b.pad a
+      pass2 b t m r (a' + b.size2 i (lookup t) a' (m a'))
   | .data bs :: r, a => pass2 b t m r (a + bs.length)
   | .org x :: r, _ => pass2 b t m r x
 
-/-- the same walk without the check: where the bytes after each label really go (what the code
-    before dd028e1 did; used to state what the check prevents) -/
+/-- the same walk without the check: the location counter at which pass 2 meets each name (what the
+    code before dd028e1 did; used to state what the check prevents) -/
+def met2 {ι} (b : Backend ι) (t : Syms) (m : Mem) : List (Stmt ι) → Nat → List (String × Nat)
+  | [], _ => []
+  | .label n :: r, a => (n, a) :: met2 b t m r a
+  | .func n :: r, a => (n, a) :: met2 b t m r a
+  | .emit i :: r, a =>
+      let a' := a + b.pad a
+      met2 b t m r (a' + b.size2 i (lookup t) a' (m a'))
+  | .data bs :: r, a => met2 b t m r (a + bs.length)
+  | .org x :: r, _ => met2 b t m r x
+
+/-- where the first byte of the code or data that follows a name met at location counter `a` is placed:
+    further names bind the same counter; data starts at the counter; an instruction starts behind its pad -/
+def codeAt {ι} (b : Backend ι) : List (Stmt ι) → Nat → Nat
+  | .label _ :: r, a => codeAt b r a
+  | .func _ :: r, a => codeAt b r a
+  | .emit _ :: _, a => a + b.pad a
+  | _, a => a
+
+/-- where the bytes following each name really go in pass 2 (no check) -/
 def place2 {ι} (b : Backend ι) (t : Syms) (m : Mem) : List (Stmt ι) → Nat → List (String × Nat)
   | [], _ => []
-  | .label n :: r, a => (n, a) :: place2 b t m r a
-  | .emit i :: r, a => place2 b t m r (a + b.size2 i (lookup t) a (m a))
+  | .label n :: r, a => (n, codeAt b r a) :: place2 b t m r a
+  | .func n :: r, a => (n, codeAt b r a) :: place2 b t m r a
+  | .emit i :: r, a =>
+      let a' := a + b.pad a
+      place2 b t m r (a' + b.size2 i (lookup t) a' (m a'))
   | .data bs :: r, a => place2 b t m r (a + bs.length)
   | .org x :: r, _ => place2 b t m r x
+
+/-- "no pad at a name": at every name of the pass-2 walk the code or data that follows starts at the
+    location counter itself (the back end pads nothing in front of an instruction that follows a name) -/
+def PadFreeAtNames {ι} (b : Backend ι) (t : Syms) (m : Mem) : List (Stmt ι) → Nat → Prop
+  | [], _ => True
+  | .label _ :: r, a => codeAt b r a = a ∧ PadFreeAtNames b t m r a
+  | .func _ :: r, a => codeAt b r a = a ∧ PadFreeAtNames b t m r a
+  | .emit i :: r, a =>
+      let a' := a + b.pad a
+      PadFreeAtNames b t m r (a' + b.size2 i (lookup t) a' (m a'))
+  | .data bs :: r, a => PadFreeAtNames b t m r (a + bs.length)
+  | .org x :: r, _ => PadFreeAtNames b t m r x
 
 /-- everything `known` knows, `final` knows with the same value -/
 def Sub (known final : String → Option Nat) : Prop := ∀ n v, known n = some v → final n = some v
@@ -95,8 +151,10 @@ def SizeStable {ι} (b : Backend ι) (i : ι) : Prop :=
 def Intact {ι} (b : Backend ι) (m : Mem) : List (Stmt ι) → Nat → Syms → Prop
   | [], _, _ => True
   | .label n :: r, a, t => Intact b m r a (t ++ [(n, a)])
+  | .func n :: r, a, t => Intact b m r a (t ++ [(n, a)])
   | .emit i :: r, a, t =>
-      m a = ((b.size1 i (lookup t) a).2).getD 0 ∧ Intact b m r (a + (b.size1 i (lookup t) a).1) t
+      let a' := a + b.pad a
+      m a' = ((b.size1 i (lookup t) a').2).getD 0 ∧ Intact b m r (a' + (b.size1 i (lookup t) a').1) t
   | .data bs :: r, a, t => Intact b m r (a + bs.length) t
   | .org x :: r, _, t => Intact b m r x t
 
@@ -130,8 +188,16 @@ def flagIdiom (fits : Nat → Bool) (short long : Nat) : Backend Opd where
     come from the constant generator registers -/
 def msp430Cg (v : Nat) : Bool := v == 0xffff || v == 0 || v == 1 || v == 2 || v == 4 || v == 8
 
-/-- `op.w #imm, Rn`: 2 bytes with the constant generator, 4 with an extension word -/
-def msp430Imm : Backend Opd := flagIdiom msp430Cg 2 4
+/-- `op.w #imm, Rn`: 2 bytes with the constant generator, 4 with an extension word; at an odd location
+    counter parse_instruction_msp430 first writes a zero byte ("Padding with a 0") -/
+def msp430Imm : Backend Opd := { flagIdiom msp430Cg 2 4 with pad := fun a => a % 2 }
+
+/-- asm/avr8.cpp: every instruction is one word here; at an odd byte counter the instruction is moved to
+    the next word (`address++`, nothing written) -/
+def avr8Word : Backend Unit where
+  size1 _ _ _ := (2, none)
+  size2 _ _ _ _ := 2
+  pad a := a % 2
 
 /-- a back end that ignores the flag: it re-decides in pass 2 from the final value alone
     (what a forward reference to a small value would do without the idiom) -/
